@@ -17,7 +17,14 @@ impl<S: Storage> DropExecutor<S> {
     #[try_stream(boxed, ok = DataChunk, error = ExecutorError)]
     pub async fn execute(self) {
         for table in self.tables {
-            if self.catalog.get_table(&table).unwrap().is_view() {
+            // (another session may have dropped it since the statement was bound)
+            let Some(catalog) = self.catalog.get_table(&table) else {
+                Err(crate::storage::TracedStorageError::not_found(
+                    "table",
+                    table.table_id,
+                ))?
+            };
+            if catalog.is_view() {
                 self.catalog.drop_table(table);
             } else {
                 self.storage.drop_table(table).await?;
